@@ -89,5 +89,11 @@ def run(ctx):
         for r in ctx.rules[n0:]:
             r.min_instances = 0
     rules = ctx.rules[n0:]
+    r4 = ctx.rule("R4", "the dependencies a task has are the ones gwf submitted it with: ids (0 included) travel unchanged from TrackingBackend.submit through LocalOps/Client to the pool")
+    from .c02 import rule_id_lookup
+    from .evalhelpers import local_client_witness, report_witness
+    rule_id_lookup(ctx, r4)
+    report_witness(r4, "src/gwf/backends/local.py::LocalOps.submit_target", "src/gwf/backends/local.py:1", cached_witness(ctx, "local-client", local_client_witness),
+                   "LocalOps.submit_target([0, 3]) sends one enqueue_task with deps=[0, 3] and returns the pool's id", select=lambda d: "prerequisites" in d or "submit_target returns" in d)
     pred = lambda c: any(k in c for k in ("try_handle_task", "_gentle_kill", "create_subprocess", "kill"))
     ctx.reconcile(rules, pred, wit, "src/gwf/backends/local.py::Scheduler.try_handle_task", "src/gwf/backends/local.py:1")
